@@ -42,4 +42,15 @@ theorem timeout_formulas : Facts.c03_propose_timeout_formula = true ∧ Facts.c0
 theorem default_deltas : Facts.c03_default_propose_delta = true ∧ Facts.c03_default_prevote_delta = true ∧
     Facts.c03_default_precommit_delta = true := by decide
 
+/-- the reactor hands a peer's majority claim (`VoteSetMaj23`) of ANY round of the current height to
+`HeightVoteSet.SetPeerMaj23` (model: `Input.peerMaj23` is accepted whatever the node's round;
+`Net.claim` delivers the claims of all rounds) -/
+theorem maj23_claim_any_round : Facts.c03_maj23_claim_any_round = "height != msg.Height" := by decide
+theorem maj23_claim_sets_peer_maj23 : Facts.c03_maj23_claim_sets_peer_maj23 = true := by decide
+
+/-- a conflicting vote is refused unless a peer claimed a majority for its block (model:
+`VoteSet.addVerified`, `conflicting && !bv.peerMaj23`) -/
+theorem conflicting_vote_gate : Facts.c03_conflicting_vote_gate =
+    "conflicting != nil && !votesByBlock.peerMaj23" := by decide
+
 end Tmv.Expect.C03
